@@ -2423,7 +2423,7 @@ class StateEngine(object):
                                 handle_error(state, error_type, error_message)
 
                             self.event_dispatcher.acknowledge(id)
-                    except PathMatchFailure as e:
+                    except (PathMatchFailure, Exception) as e:
                         handle_error(state, "States.Runtime", str(e))
                         self.event_dispatcher.acknowledge(id)
 
@@ -2698,7 +2698,7 @@ class StateEngine(object):
             except IntrinsicFailure as e:
                 handle_error(state, "States.IntrinsicFailure", str(e))
                 self.event_dispatcher.acknowledge(id)
-            except PathMatchFailure as e:
+            except (PathMatchFailure, Exception) as e:
                 handle_error(state, "States.Runtime", str(e))
                 self.event_dispatcher.acknowledge(id)
 
